@@ -171,7 +171,37 @@ fn funding(name: &str, a: &[String]) -> Option<String> {
     })
 }
 
+/// `pimpact.price <long usd> <short usd> <delta long (signed)> <delta short (signed)> <exponent> <positive> <negative>`
+/// on the real PoolDelta::try_new(..).price_impact::<20>(..) with unit token prices (usd value == amount).
+fn pimpact(name: &str, a: &[String]) -> Option<String> {
+    use gmsol_model::params::PriceImpactParams;
+    use gmsol_model::pool::delta::{BalanceChange, PoolDelta};
+    struct P(u128, u128);
+    impl gmsol_model::Balance for P {
+        type Num = u128;
+        type Signed = i128;
+        fn long_amount(&self) -> gmsol_model::Result<u128> { Ok(self.0) }
+        fn short_amount(&self) -> gmsol_model::Result<u128> { Ok(self.1) }
+    }
+    let n = |i: usize| -> u128 { a[i].parse::<u128>().unwrap() };
+    let s = |i: usize| -> i128 { a[i].parse::<i128>().unwrap() };
+    Some(match name {
+        "price" => {
+            let params = PriceImpactParams::builder().exponent(n(4)).positive_factor(n(5)).negative_factor(n(6)).build();
+            let Ok(d) = PoolDelta::try_new(&P(n(0), n(1)), s(2), s(3), &1u128, &1u128) else { return Some("ErrDelta".into()) };
+            match d.price_impact::<20>(&params) {
+                Ok(pi) => format!("Ok({},{})", pi.value, match pi.balance_change { BalanceChange::Improved => "Improved", BalanceChange::Worsened => "Worsened", BalanceChange::Unchanged => "Unchanged" }),
+                Err(_) => "Err".into(),
+            }
+        }
+        _ => return None,
+    })
+}
+
 pub fn dispatch(name: &str, a: &[String]) -> Option<String> {
+    if let Some(n) = name.strip_prefix("pimpact.") {
+        return pimpact(n, a);
+    }
     if let Some(n) = name.strip_prefix("funding.") {
         return funding(n, a);
     }
